@@ -36,6 +36,10 @@ package pipeline
 // is the record itself, minus a trailing newline if it has one - inputs hand
 // records over in both forms.)
 
+// With source_name_meta_field the antispam source is the meta value, for the counter key
+// (id) as well as for the name: two meta-named sources behind one input source id must
+// not share a counter.
+
 // A pooled event keeps the tree of the line it carried before: only the json and
 // protobuf decoders re-decode the root themselves; every other decoder (and the raw /
 // cri / postgres paths) adds fields to the root it is given, which must therefore
@@ -74,7 +78,11 @@ package pipeline
 //@     requires dec == decoder.CRI
 //@     pure
 //@     set g_so := r
+//@   ghost g_mok bool = false
+//@   callee maplookup:meta(k) (v, ok)
+//@     set g_mok := ok
 //@   callee IsSpam(id, name, isNew, event, t, meta) (r)
+//@     requires p.settings.SourceNameMetaField != "" && g_mok ==> len(id) == len(name) && seqeq(id, name, 0)
 //@     set g_spam := r
 //@   callee streamEvent(e) (r)
 //@     requires held == 1
